@@ -101,11 +101,18 @@ def gen(ctx):
     n = int(rng.integers(12, 34))
     kind = str(rng.choice(['uniform', 'clustered', 'twoclusters']))
     coords = np.unique(gen_coords(rng, n, dim=2, kind=kind), axis=0)
+    if rng.random() < 0.5:
+        # isolated stations far from everything else: their hold-out cannot be estimated (< 5 neighbours
+        # within the effective range) - the scores must be taken over the others only
+        k = int(rng.integers(1, 4))
+        far = coords.max(axis=0) + rng.uniform(300, 900, size=(k, 2)) * np.array([[1, 1], [1, -1], [-1, 1]])[:k]
+        coords = np.vstack([coords, far])
+        rng.shuffle(coords, axis=0)
     values = gen_values(rng, coords, 'field')
     model = str(rng.choice(['spherical', 'exponential', 'cubic', 'stable', 'matern']))
     kw = dict(model=model, n_lags=int(rng.integers(4, 9)), maxlag=str(rng.choice(['median', 'mean'])) if rng.random() < 0.7 else None,
               use_nugget=bool(rng.random() < 0.4), dist_func=str(rng.choice(['euclidean', 'euclidean', 'cityblock'])))
-    sub = None if rng.random() < 0.5 else int(rng.integers(3, len(coords)))
+    sub = None if rng.random() < 0.6 else int(rng.integers(max(3, len(coords) - 4), len(coords)))
     return dict(coords=coords.tolist(), values=values.tolist(), kw=kw, n=sub, seed=int(rng.integers(0, 10 ** 6)))
 
 
